@@ -511,3 +511,62 @@ func (e *Engine) lostUpdates(fn *ssa.Function, f *types.Var) (found []lostUpdate
 	})
 	return
 }
+
+// ---- R16: atomic update groups -------------------------------------------------------------------------------
+//
+// Several representations of one fact (a request's zone: Request.zone, Allocator.users[id], Zone.users[id], the
+// journal) are kept in agreement by updating all of them in the same primitive. AtomicGroup checks, inside one
+// function: every kind of update of the group occurs, and no path from entry to a return performs an update of one
+// kind without performing one of every other kind.
+type groupKind struct {
+	Name string
+	Is   func(ssa.Instruction) bool
+}
+
+func (r *Report) AtomicGroup(key, what string, fn *ssa.Function, kinds []groupKind) {
+	e := r.e
+	rule := "R16 atomic update group"
+	if fn == nil {
+		return
+	}
+	inst := make([][]ssa.Instruction, len(kinds))
+	AllInstrs(fn, func(in ssa.Instruction) {
+		for i, k := range kinds {
+			if k.Is(in) {
+				inst[i] = append(inst[i], in)
+			}
+		}
+	})
+	isRet := func(in ssa.Instruction) bool { _, ok := in.(*ssa.Return); return ok }
+	for i, k := range kinds {
+		if len(inst[i]) == 0 {
+			r.Check(key+"#"+k.Name, rule, what+": "+k.Name+" is updated", e.Pos(fn.Pos()), fn, false, "no "+k.Name+" update in "+fn.Name(), true)
+			continue
+		}
+		ok, why := true, ""
+		for j, k2 := range kinds {
+			if i == j || len(inst[j]) == 0 {
+				continue
+			}
+			isJ := func(in ssa.Instruction) bool {
+				for _, x := range inst[j] {
+					if x == in {
+						return true
+					}
+				}
+				return false
+			}
+			for _, a := range inst[i] {
+				a := a
+				p1 := FindPath(PathQuery{Fn: fn, Target: func(in ssa.Instruction) bool { return in == a }, Block: isJ})
+				if p1 == nil {
+					continue
+				}
+				if p2 := FindPath(PathQuery{Fn: fn, From: a, Target: isRet, Block: isJ}); p2 != nil {
+					ok, why = false, k.Name+" at "+e.InstrPos(a)+" can be updated on a path that does not update "+k2.Name+": "+e.pathString(p2)
+				}
+			}
+		}
+		r.Check(key+"#"+k.Name, rule, what+": "+k.Name+" is updated together with the other representations (all or none on every path)", e.InstrPos(inst[i][0]), fn, ok, why, true)
+	}
+}
